@@ -7,7 +7,7 @@ From Coq Require Import List Arith Bool ZArith.
 From FT Require Import Base.Dict Model.Edit Model.EditExec Proofs.EditInv Proofs.EditFrame.
 From FT Require Gen.History_gen Proofs.HistoryGeneric Proofs.HistoryTie Proofs.HistoryGen.
 From FT Require Proofs.EditInverse.
-From FT Require Proofs.EditBook Proofs.EditSessions.
+From FT Require Proofs.EditBook Proofs.EditSessions Proofs.EditSessionsFull Proofs.EditSessionsAll.
 Import ListNotations.
 
 Module G := FT.Gen.History_gen.
@@ -109,38 +109,37 @@ Proof.
            EditInverse.inv_tot (EditInverse.TrI W_dict) (EditInverse.TrI_inv W_dict) (EditInverse.TrI_src W_dict) dA dS ops s0 V).
 Qed.
 
-(* (7) The whole law for the executable edit machine (Proofs/EditSessions.v): for EVERY sequence of
-   edge / node calls, undos and redos from a well-formed state with an empty history (hypotheses as in
-   C03_sessions): the cursor stays inside the timeline, the current model state is observably the state
+(* (7) The whole law for the executable edit machine (Proofs/EditSessions.v, EditSessionsFull.v,
+   EditSessionsAll.v): for EVERY sequence of calls of the public interface - edge, swap, node, attribute
+   and stroke edits, undos, redos, queries - from a well-formed state with an empty history (hypotheses
+   as in C03_sessions): the cursor stays inside the timeline, the current model state is observably the state
    under the cursor, every timeline state is well formed, the timeline never forgets (it is st0 :: ext);
    and every OUndo / ORedo reports success exactly when the timeline can move, failing exactly at its ends.
-   tl_run is the list+cursor reference run over the same calls. *)
+   tl_run_full is the list+cursor reference run over the same calls. *)
 Theorem C02_sessions_timeline : forall st0 ops,
-  forallb EditSessions.session_fragment ops = true ->
-  WF st0 -> EditSessions.reg_ok st0 -> EditBook.rp_disjoint st0 ->
-  undo_stack st0 = [] -> redo_stack st0 = [] -> EditSessions.pre_along st0 ops ->
+  WF st0 -> EditSessions.reg_ok st0 -> EditBook.rp_disjoint st0 -> EditSessionsFull.rp_decl st0 ->
+  undo_stack st0 = [] -> redo_stack st0 = [] -> EditSessionsAll.pre_along_all st0 ops ->
   forall dS,
-  let t := EditSessions.tl_run st0 {| A.tl := [st0]; A.c := 0 |} ops in
+  let t := EditSessionsFull.tl_run_full st0 {| A.tl := [st0]; A.c := 0 |} ops in
   (A.c state t < length (A.tl state t))%nat /\
   EditInverse.obs_eq (run st0 ops) (nth (A.c state t) (A.tl state t) dS) /\
   Forall WF (A.tl state t) /\
   (exists ext, A.tl state t = st0 :: ext).
-Proof. exact EditSessions.session_timeline. Qed.
+Proof. exact EditSessionsAll.session_all_timeline. Qed.
 
 Theorem C02_sessions_undo_redo : forall st0 ops,
-  forallb EditSessions.session_fragment ops = true ->
-  WF st0 -> EditSessions.reg_ok st0 -> EditBook.rp_disjoint st0 ->
-  undo_stack st0 = [] -> redo_stack st0 = [] -> EditSessions.pre_along st0 ops ->
+  WF st0 -> EditSessions.reg_ok st0 -> EditBook.rp_disjoint st0 -> EditSessionsFull.rp_decl st0 ->
+  undo_stack st0 = [] -> redo_stack st0 = [] -> EditSessionsAll.pre_along_all st0 ops ->
   forall pre post,
   (ops = pre ++ OUndo :: post ->
-     let t := EditSessions.tl_run st0 {| A.tl := [st0]; A.c := 0 |} pre in
+     let t := EditSessionsFull.tl_run_full st0 {| A.tl := [st0]; A.c := 0 |} pre in
      fst (snd (step (run st0 pre) OUndo)) = (if snd (A.t_undo state t) then 1 else 2) /\
      (snd (A.t_undo state t) = false <-> A.c state t = 0%nat)) /\
   (ops = pre ++ ORedo :: post ->
-     let t := EditSessions.tl_run st0 {| A.tl := [st0]; A.c := 0 |} pre in
+     let t := EditSessionsFull.tl_run_full st0 {| A.tl := [st0]; A.c := 0 |} pre in
      fst (snd (step (run st0 pre) ORedo)) = (if snd (A.t_redo state t) then 1 else 2) /\
      (snd (A.t_redo state t) = false <-> (length (A.tl state t) <= S (A.c state t))%nat)).
-Proof. exact EditSessions.session_undo_redo. Qed.
+Proof. exact EditSessionsAll.session_all_undo_redo. Qed.
 
 Example C02_nonvacuous :
   let inv := fun (s : Z) (a : Z) => ((s - a)%Z, (- a)%Z) in
